@@ -35,7 +35,12 @@ def _values(case):
     so bands and eps are scaled by the un-translated values."""
     V0 = np.array(case["values"], float)
     off = np.array(case.get("offset") or [0.0] * V0.shape[1], float)
-    return V0 + off, V0
+    V = V0 + off
+    if case.get("int_dtype") and np.all(V == np.round(V)):
+        # whole-number objective values handed over as an integer array (counts, ranks): the geometric quantities are
+        # the same as for the equal float array
+        V = V.astype(np.int64)
+    return V, V0
 
 
 def oracle_gaps(W, V):
@@ -72,6 +77,8 @@ def check_gap(case):
     order, W = _W(spec)
     V, V0 = _values(case)
     labels = list(gen.cone_labels(spec)) + (["far-from-origin"] if case.get("offset") else [])
+    if V.dtype.kind == "i":
+        labels.append("integer-dtype-values")
     alpha = order.ordering_cone.alpha
     got = np.asarray(get_delta(V.copy(), W, alpha), float)
     n = len(V)
@@ -179,6 +186,9 @@ def check_f1(case):
     labels = list(gen.cone_labels(spec)) + (["far-from-origin"] if case.get("offset") else [])
     scale = max(1e-9, float(np.abs(V0).max()))
     ds = hdata.make_dataset_class(np.arange(n)[:, None] / max(1, n), V)()
+    if V.dtype.kind == "i":
+        ds.out_data = V.copy()
+        labels.append("integer-dtype-values")
     # history independence: a score must not depend on what was scored before - first score a different value set of the
     # same shape, placed at the same offset (memoised intermediate results keyed on "close" data would leak)
     if case.get("decoy"):
@@ -380,7 +390,9 @@ def check_hv(case):
 @st.composite
 def st_values(draw, m, nmax=8):
     n = draw(st.integers(2, nmax))
-    style = draw(st.sampled_from(["lattice", "cont", "cont", "near"]))
+    style = draw(st.sampled_from(["lattice", "cont", "cont", "near", "int"]))
+    if style == "int":
+        return [[float(draw(st.integers(-6, 6))) for _ in range(m)] for _ in range(n)]
     if style == "lattice":
         return [[draw(st.integers(-8, 8)) / 4 for _ in range(m)] for _ in range(n)]
     if style == "cont":
@@ -408,7 +420,8 @@ def st_gap(draw):
     spec = draw(st_unit_cone())
     m = gen.spec_dim(spec)
     vals = draw(st_values(m))
-    return {"cone": spec, "values": vals, "offset": draw(st_far(m)), "pairs": [[draw(st.integers(0, 7)), draw(st.integers(0, 7))] for _ in range(4)],
+    return {"cone": spec, "values": vals, "offset": draw(st_far(m)), "int_dtype": draw(st.booleans()),
+            "pairs": [[draw(st.integers(0, 7)), draw(st.integers(0, 7))] for _ in range(4)],
             "dirs": [[draw(st.floats(-1, 1)) for _ in range(m)] for _ in range(6)]}
 
 
@@ -433,7 +446,8 @@ def st_f1(draw):
     spec = draw(st_unit_cone())
     m = gen.spec_dim(spec)
     vals = draw(st_values(m, 7))
-    return {"cone": spec, "values": vals, "offset": draw(st_far(m)), "decoy": draw(st.one_of(st.none(), st_values(m, 7))),
+    return {"cone": spec, "values": vals, "offset": draw(st_far(m)), "int_dtype": draw(st.booleans()),
+            "decoy": draw(st.one_of(st.none(), st_values(m, 7))),
             "eps_sel": draw(st_eps_sel()), "eps_up": draw(st.sampled_from([1.0, 1.5, 3.0, 10.0])),
             "pred_kind": draw(st.sampled_from(["truth", "empty", "all", "subset", "subset", "subset"])),
             "pred": draw(st.lists(st.integers(0, 6), min_size=1, max_size=6)),
